@@ -10,7 +10,9 @@ import (
 	"context"
 	"encoding/json"
 	"fmt"
+	goruntime "runtime"
 	"strings"
+	"sync"
 	"testing"
 	"testing/synctest"
 	"time"
@@ -30,12 +32,22 @@ type simSource struct {
 	in       chan watch.Event // offers queued by the driver
 	closeReq chan struct{}
 	stopped  int
+	mu       sync.Mutex
 	accepted []watch.Event
 	closed   bool
 }
 
 func (s *simSource) ResultChan() <-chan watch.Event { return s.ch }
-func (s *simSource) Stop()                          { s.stopped++ }
+func (s *simSource) Stop() {
+	s.mu.Lock()
+	s.stopped++
+	s.mu.Unlock()
+	// give concurrently released stoppers a chance to overlap (which goroutine
+	// proceeds inside the code under test is not the driver's decision here)
+	for i := 0; i < 4; i++ {
+		goruntime.Gosched()
+	}
+}
 
 func (s *simSource) feeder() {
 	defer func() { close(s.ch); s.closed = true }()
@@ -250,7 +262,16 @@ func watchBubble(spec RunSpec, res *Result) {
 			}
 			for k := 0; k < n; k++ {
 				stoppers++
-				go w.Stop()
+				go func() {
+					defer func() {
+						if r := recover(); r != nil {
+							crashMu.Lock()
+							crashReports = append(crashReports, fmt.Sprintf("Stop: %v", r))
+							crashMu.Unlock()
+						}
+					}()
+					w.Stop()
+				}()
 			}
 			consumerStopped = true
 			res.Counters["probe.stop"]++
